@@ -235,7 +235,7 @@ def main(tier):
     ev.assumptions = ["clause/thrown-type pairs the documentation does not settle (catch(logic_error) for a C++ std::logic_error, catch(Dynamic_Object) for a script "
                       "class instance) make a case inconclusive; a caught exception object is never re-thrown or kept beyond its handler (lifetime, outside the property)",
                       "C++ exceptions of non-std types and non-class C++ throws are not catchable by script clauses and pass through (finally blocks still run)"]
-    n = 8000 if tier == "quick" else 300000
+    n = 8000 if tier == "quick" else 120000
     failures = hyp.run("c10", ev, tier, n)
     confirmed = hyp.confirm("c10", failures, PID)
     for p, what in confirmed:
